@@ -103,7 +103,8 @@ def inlinable(facts, t, stack, want=None, closures=False):
 
 OPT, RES, POLL, CF = "std::option::Option", "std::result::Result", "std::task::Poll", "std::ops::ControlFlow"
 HENTRY = "std::collections::hash_map::Entry"
-VARIANTS = {OPT: ["None", "Some"], RES: ["Ok", "Err"], POLL: ["Ready", "Pending"], CF: ["Continue", "Break"], HENTRY: ["Occupied", "Vacant"]}
+HDRENTRY = "http::header::Entry"
+VARIANTS = {HDRENTRY: ["Occupied", "Vacant"], OPT: ["None", "Some"], RES: ["Ok", "Err"], POLL: ["Ready", "Pending"], CF: ["Continue", "Break"], HENTRY: ["Occupied", "Vacant"]}
 
 # result expressions: ("payload",) | ("arg", i) | ("call", i, "payload"|"refpayload"|None) | ("wrap", adt, variant, expr|None)
 #                     | ("bool", b) | ("filter", i)
@@ -134,6 +135,12 @@ COMBINATORS = [
     (r"^std::collections::hash_map::Entry::<.*>::or_insert_with$", HENTRY,
      {"Occupied": ("stdcall", "std::collections::hash_map::OccupiedEntry::into_mut", ["payload"]),
       "Vacant": ("stdcall", "std::collections::hash_map::VacantEntry::insert", ["payload", ("call", 1, None)])}),
+    (r"^http::header::(map::)?Entry::<.*>::or_insert_with$", HDRENTRY,
+     {"Occupied": ("stdcall", "http::header::OccupiedEntry::into_mut", ["payload"]),
+      "Vacant": ("stdcall", "http::header::VacantEntry::insert", ["payload", ("call", 1, None)])}),
+    (r"^http::header::(map::)?Entry::<.*>::or_insert$", HDRENTRY,
+     {"Occupied": ("stdcall", "http::header::OccupiedEntry::into_mut", ["payload"]),
+      "Vacant": ("stdcall", "http::header::VacantEntry::insert", ["payload", ("arg", 1)])}),
     (r"^std::collections::hash_map::Entry::<.*>::or_insert$", HENTRY,
      {"Occupied": ("stdcall", "std::collections::hash_map::OccupiedEntry::into_mut", ["payload"]),
       "Vacant": ("stdcall", "std::collections::hash_map::VacantEntry::insert", ["payload", ("arg", 1)])}),
